@@ -199,6 +199,8 @@ def spec_nfa_substrings(pats, sy, must_be_suffix):
         finals.add(1)
     for p in sorted(pats):
         cur = 0
+        if p == "":
+            finals.add(0)          # the empty pattern occurs in (and ends) every word
         for i, c in enumerate(p):
             last = i == len(p) - 1
             if last and not must_be_suffix:
@@ -559,6 +561,8 @@ def run(ctx):
         sigma = rng.choice(["a", "ab", "ab", "abc", "abc"])
         # most sets as the property text says (length <= 3); every fourth with longer patterns (deeper failure chains)
         pats = rand_pattern_set(rng, sigma, 3 if i % 4 else 6)
+        if i % 12 == 5:
+            pats = frozenset(pats) | {""}      # the empty pattern in the set: every word qualifies
         for c in (True, False):
             for m in (False, True):
                 cases.append(Case("from_substrings", sigma, pats=pats, contains=c, must_be_suffix=m))
